@@ -15,7 +15,7 @@ from vf.checks.c12_admission import snapshot
 
 CFGS = ['none', 'star', 'string', 'list', 'callable', 'empty']
 LISTED = 'http://listed.example'
-ORIGINS = ['absent', 'empty', 'same', 'forwarded', 'listed', 'case', 'prefix', 'suffix', 'listed_suffix',
+ORIGINS = ['absent', 'empty', 'same', 'forwarded', 'listed', 'case', 'listed_case', 'prefix', 'suffix', 'listed_suffix',
            'port', 'slash', 'null', 'foreign']
 HOSTS = ['h', None]
 XFPS = [None, 'https', 'https, http']
@@ -35,7 +35,7 @@ def first(v):
 def origin_value(name, host, xfp, xfh):
     fwd = '%s://%s' % (first(xfp) if xfp else 'http', first(xfh) if xfh else (host or 'h'))
     return {'absent': None, 'empty': '', 'same': 'http://h', 'forwarded': fwd, 'listed': LISTED,
-            'case': 'HTTP://H', 'prefix': 'http://liste', 'suffix': 'http://h.evil.com',
+            'case': 'HTTP://H', 'listed_case': LISTED.upper(), 'prefix': 'http://liste', 'suffix': 'http://h.evil.com',
             'listed_suffix': LISTED + '.evil.com', 'port': 'http://h:8080', 'slash': 'http://h/',
             'null': 'null', 'foreign': 'http://evil.example'}[name]
 
@@ -65,7 +65,7 @@ def classify(origin, cfg, host, xfp, xfh):
             return 'allowed_soft'     # scheme seen by the gateway is ambiguous under X-Forwarded-Proto
         return 'allowed'
     if origin.lower() in {a.lower() for a in allowed}:
-        return 'ambiguous'
+        return 'disallowed' if cfg == 'callable' else 'ambiguous'     # a predicate is its own reference
     return 'disallowed'
 
 
@@ -167,12 +167,34 @@ def run_cases(impl, cfg, cred, cases, out, stats):
             w.teardown()
 
 
+def verdict(w, h, before):
+    rh = h.resp_headers or []
+    return {'status': h.status, 'exc': (h.exc or {}).get('type'),
+            'acao': sorted(v for k, v in rh if k.lower() == 'access-control-allow-origin'),
+            'acac': sorted(v for k, v in rh if k.lower() == 'access-control-allow-credentials'),
+            'changed': snapshot(w) != before}
+
+
 def run_pairs(impl, cfg, out, stats):
     """Two requests on one server: the verdict on the second depends on the second alone (the policy keeps no
-    memory of hosts / forwarded headers seen earlier)."""
-    firsts = [(xfp, xfh, o1, k1) for xfp in (None, 'https') for xfh in (None, 'pub.example', 'evil.example')
+    memory of hosts, forwarded headers or origins seen earlier). Judged twice: against the origin reference, and
+    differentially against the same second request on a fresh server."""
+    firsts = [(xfp, xfh, ('fwd' if o1 else None), k1) for xfp in (None, 'https') for xfh in (None, 'pub.example', 'evil.example')
               for o1 in (None, 'fwd') for k1 in ('open', 'options') if (xfp or xfh)]
-    seconds = ['http://h', 'http://pub.example', 'https://pub.example', 'http://evil.example', 'https://h', LISTED, None]
+    firsts += [(None, None, o1, k1) for o1 in (LISTED, 'http://h', LISTED.upper(), 'http://evil.example') for k1 in ('open', 'post')]
+    seconds = ['http://h', 'http://pub.example', 'https://pub.example', 'http://evil.example', 'https://h', LISTED, None,
+               LISTED.upper(), 'http://Listed.Example', LISTED + '.evil.com', 'HTTP://H']
+    fresh = {}
+    for o2 in seconds:
+        for k2 in ('open', 'poll'):
+            w, sid = prepare(impl, cfg, True)
+            stats['worlds'] += 1
+            try:
+                before = snapshot(w)
+                fresh[(o2, k2)] = verdict(w, issue(w, impl, k2, sid, request_headers(o2, 'h', None, None), 'h'), before)
+                stats['requests'] += 1
+            finally:
+                w.teardown()
     for xfp, xfh, o1, k1 in firsts:
         for o2 in seconds:
             for k2 in ('open', 'poll'):
@@ -180,27 +202,34 @@ def run_pairs(impl, cfg, out, stats):
                 stats['worlds'] += 1
                 try:
                     fwd = '%s://%s' % (first(xfp) if xfp else 'http', first(xfh) if xfh else 'h')
-                    issue(w, impl, k1, sid, request_headers(fwd if o1 else None, 'h', xfp, xfh), 'h')
+                    org1 = fwd if o1 == 'fwd' else o1
+                    issue(w, impl, k1, sid, request_headers(org1, 'h', xfp, xfh), 'h')
+                    if sid not in w.live_sids():
+                        continue
                     cls = classify(o2, cfg, 'h', None, None)
+                    if cfg == 'callable' and o2 is not None:
+                        cls = 'allowed' if o2 == LISTED else 'disallowed'     # the predicate itself is the reference
                     before = snapshot(w)
                     h = issue(w, impl, k2, sid, request_headers(o2, 'h', None, None), 'h')
                     stats['requests'] += 2
-                    rh = h.resp_headers or []
-                    acao = [v for k, v in rh if k.lower() == 'access-control-allow-origin']
+                    vd = verdict(w, h, before)
+                    acao = vd['acao']
                     text = None
                     if h.exc:
                         text = ('exception_escaped', 'raised %s' % h.exc['type'])
-                    elif cls == 'disallowed' and (h.status != 400 or snapshot(w) != before):
-                        text = ('disallowed_origin_admitted', 'status %r (state changed: %s)' % (h.status, snapshot(w) != before))
+                    elif cls == 'disallowed' and (h.status != 400 or vd['changed']):
+                        text = ('disallowed_origin_admitted', 'status %r (state changed: %s)' % (h.status, vd['changed']))
                     elif cls == 'disallowed' and acao:
                         text = ('acao_overgrant', 'Access-Control-Allow-Origin %r' % acao)
                     elif cls in ('allowed', 'absent') and h.status != 200:
                         text = ('allowed_origin_refused', 'status %r' % h.status)
+                    elif vd != fresh[(o2, k2)]:
+                        text = ('verdict_depends_on_history', 'verdict %r; the same request on a fresh server: %r' % (vd, fresh[(o2, k2)]))
                     if text:
                         out.append(report.Violation(
                             {'impl': impl, 'kind': text[0], 'trigger': 'request_pair cfg=%s' % cfg},
                             '[%s cfg=%s] after a %s request with X-Forwarded-Proto=%r X-Forwarded-Host=%r Origin=%r, a %s request with '
-                            'Origin=%r and no forwarded headers: %s' % (impl, cfg, k1, xfp, xfh, fwd if o1 else None, k2, o2, text[1]),
+                            'Origin=%r and no forwarded headers: %s' % (impl, cfg, k1, xfp, xfh, org1, k2, o2, text[1]),
                             {'harness': 'pair', 'impl': impl, 'cfg': cfg}, weight=(1, 0)))
                 finally:
                     w.teardown()
@@ -240,7 +269,7 @@ def run(ctx):
                 for part in parallel.split(sorted(prod, key=key), 4):
                     jobs.append((impl, cfg, cred, sorted(part, key=key)))
     for impl in ('sync', 'async'):
-        for cfg in ('none', 'string', 'list', 'callable'):
+        for cfg in CFGS:
             jobs.append((impl, cfg, True, 'PAIRS'))
     res = parallel.pmap_chunks(_work, [[j] for j in jobs], ctx.workers, ctx.seed, maxtasks=4)
     tot = {}
@@ -254,10 +283,10 @@ def run(ctx):
     rep.coverage = {
         'evaluations': tot['requests'],
         'distinct_nontrivial': tot['requests'] - tot.get('absent', 0),
-        'rule': 'cors_allowed_origins {None,*,string,list,callable,[]} x credentials x 13 Origin values x Host {h, absent} x '
+        'rule': 'cors_allowed_origins {None,*,string,list,callable,[]} x credentials x 14 Origin values x Host {h, absent} x '
                 'X-Forwarded-Proto(%d) x X-Forwarded-Host(%d) x request kind {open, poll, post with a MESSAGE, '
                 'WebSocket upgrade, OPTIONS, OPTIONS+sid} x {Server, AsyncServer}; plus request pairs on one server (a first request with '
-                'X-Forwarded-* headers, then a second without) judged on the second alone. Non-trivial = requests bearing an Origin header.'
+                'X-Forwarded-* headers or with an allowed / case-variant / foreign Origin, then a second without forwarded headers) judged on the second alone: against the reference (for a callable the predicate itself) and differentially against the same request on a fresh server. Non-trivial = requests bearing an Origin header.'
                 % (len(xfps), len(xfhs)),
         'samples': [{'cfg': 'string', 'origin': 'http://liste', 'kind': 'post'},
                     {'cfg': 'none', 'origin': 'https://pub.example', 'XFP': 'https', 'XFH': 'pub.example, inner.lan', 'kind': 'upgrade'},
